@@ -61,6 +61,7 @@ def gen_case(rng, tier, index):
     w["set"] = 9
     w["getitem"] = 6
     w["clear"] = 0.2
+    w["clone"] = 0.4
     exact = index % 3 == 0
     if exact:
         for o in ("values", "items", "eq_dict", "ne_dict", "popitem", "setdefault", "contains", "get", "clear"):
@@ -390,6 +391,20 @@ def run_case(case, res):
                         mech = "store-present-key-keeps-old-value"
                     raise Violation(mech, f"popitem() -> {got}, not a (key, value) pair of {m.val!r}", {})
                 m.drop(got[1][0])
+        elif op == "clone":
+            # the caller goes on with a copy of the cache (copy.deepcopy / a pickle round trip, e.g. a cache handed to
+            # another process): the copy is a cache with the same content, recency / use counts included
+            if n > 40:
+                continue
+            import copy
+            import pickle
+            how = "deepcopy" if aux % 2 else "pickle"
+            got = _guard(f"{how} of the cache", 4 * n + 10, (lambda: copy.deepcopy(c)) if aux % 2 else (lambda: pickle.loads(pickle.dumps(c))))
+            if got[0] != "ok" or type(got[1]) is not type(c):
+                raise Violation("operation-raised", f"{how} of a cache with {n} entries -> {got}", {})
+            c = got[1]
+            desc = f"continuing with a {how} of the cache"
+            res.count("clones_continued_with")
         elif op == "clear":
             got = _guard("clear()", n, lambda: c.clear())
             if got != ("ok", None):
